@@ -76,8 +76,8 @@ def run(tier: str, seed: int) -> int:
     budget = whole.QUICK_BUDGET if tier == "quick" else whole.THOROUGH_BUDGET
     failures = []
     stats = {}
-    per = {"core": 35, "procs0": 35, "tco0": 40, "funcs": 25, "tco": 30, "calls": 20} if tier == "quick" else {k: 300 for k in STREAMS}
-    nvec = 5 if tier == "quick" else 8
+    per = {"core": 35, "procs0": 35, "tco0": 40, "funcs": 25, "tco": 30, "calls": 20} if tier == "quick" else {k: 150 for k in STREAMS}
+    nvec = 5 if tier == "quick" else 6
     for kind, n in per.items():
         fixed = STREAMS[kind]["fixed"]
         for i in range(n):
@@ -113,7 +113,7 @@ def run(tier: str, seed: int) -> int:
                     if v["verdict"] == "src-undefined":
                         break
                     bad = None
-                    if v["verdict"] in whole.BAD_VERDICTS and not (v["verdict"] == "trace-mismatch" and whole.nonfinite_in_trace(drv, prog, pool, es, budget["fuel"])):
+                    if v["verdict"] in whole.BAD_VERDICTS and not v.get("ic_nonfinite") and not (v["verdict"] == "trace-mismatch" and whole.nonfinite_in_trace(drv, prog, pool, es, budget["fuel"])):
                         bad = f"{v['verdict']} (source {v.get('src_at')}, chip {v.get('ic_at')}, after {v.get('common')} equal effects)"
                     elif any("goes to" in c or "without a call" in c for c in v.get("call_violations", [])):
                         bad = "call discipline broken: " + v["call_violations"][0]
@@ -125,7 +125,7 @@ def run(tier: str, seed: int) -> int:
             if len(chk.coverage["samples"]) < 3:
                 chk.sample({"profile": kind, "vectors": [[k for k, x in o.items() if x] for o, _ in vecs[:3]], "src": src[:300]})
     # -- name family: suffix-related function names (an inlined `pre_run` inside `run`): outputs compared pairwise -------------------
-    for i in range(40 if tier == "quick" else 400):
+    for i in range(40 if tier == "quick" else 300):
         base = r.choice(["run", "tick", "update", "f", "set"])
         inner = r.choice(["pre_" + base, "on_" + base, "re" + base, "other", "x" + base])
         helper = r.choice(["emit", "h", "log_" + base, "z"])
@@ -156,7 +156,7 @@ def run(tier: str, seed: int) -> int:
     # -- tail family: chains of parameterless procedures ending in a call, entered from several sites; every combination of
     #    inlining x tail calls x calling convention, outputs compared pairwise ------------------------------------------------
     import itertools
-    for i in range(25 if tier == "quick" else 250):
+    for i in range(25 if tier == "quick" else 200):
         src = tail_family(r)
         traces = []
         for inl, tco, pp in itertools.product([False, True], repeat=3):
